@@ -1601,11 +1601,11 @@ func runRoute(c *core.Ctx) {
 		fn        *ssa.Function
 		inherited map[string]bool
 	}
-	routers := []routeFn{{r.Router, map[string]bool{}}}
+	routers := []routeFn{{r.Dispatch, map[string]bool{}}}
 	subCalls := map[*ssa.Function][]ssa.CallInstruction{}
-	an.Calls(r.Router, func(call ssa.CallInstruction) {
+	an.Calls(r.Dispatch, func(call ssa.CallInstruction) {
 		sc := call.Common().StaticCallee()
-		if sc == nil || sc == r.Router || core.FuncPkgPath(sc) != c.P.Module || sc.Signature.Recv() == nil || an.NamedOf(an.Deref(sc.Signature.Recv().Type())) != r.Server || sc.Signature.Results().Len() != 0 {
+		if sc == nil || sc == r.Dispatch || core.FuncPkgPath(sc) != c.P.Module || sc.Signature.Recv() == nil || an.NamedOf(an.Deref(sc.Signature.Recv().Type())) != r.Server || sc.Signature.Results().Len() != 0 {
 			return
 		}
 		hasW := false
